@@ -155,6 +155,7 @@ class Zooming(Algorithm):
                 self.partition.make_children(parent=parent, newlayer=False)
 
             children_list = parent.get_children()
+            arm_moved = False
             for child in children_list:
                 child_domain = child.get_domain()
                 point = self.best_arm.get_point()
@@ -173,9 +174,15 @@ class Zooming(Algorithm):
                         break
 
                 if not child_updated:
-                    self.active_points[
-                        self.best_arm
-                    ] = child  # else, update the active arm to refer to the child node
+                    if arm_moved:
+                        # the arm lies on a face shared with a child that already took it over:
+                        # this child still needs an arm of its own to stay covered
+                        self.make_active(child)
+                    else:
+                        self.active_points[
+                            self.best_arm
+                        ] = child  # else, update the active arm to refer to the child node
+                        arm_moved = True
 
     def get_last_point(self):
         """
